@@ -95,18 +95,42 @@ class Obligation:
 
 
 class State:
-    __slots__ = ('store', 'guard')
+    """store + path condition.  The path condition is kept as a tuple of conjuncts so that joins can drop the
+    branch conditions again when every branch survives (keeps guards small across long unrolled loops)."""
+    __slots__ = ('store', 'conj', '_g')
 
-    def __init__(self, store=None, guard=True):
+    def __init__(self, store=None, guard=True, conj=None):
         self.store = store if store is not None else {}
-        self.guard = guard
+        if conj is not None:
+            self.conj = conj
+        else:
+            self.conj = () if guard is True else (guard,)
+        self._g = None
+
+    @property
+    def guard(self):
+        if self._g is None:
+            self._g = b_and(*self.conj)
+        return self._g
+
+    @guard.setter
+    def guard(self, value):
+        self.conj = () if value is True else (value,)
+        self._g = None
+
+    def add_guard(self, cond):
+        if cond is True:
+            return
+        self.conj = self.conj + (cond,)
+        self._g = None
 
     def fork(self, cond):
-        return State(dict(self.store), b_and(self.guard, cond))
+        return State(dict(self.store), conj=self.conj + ((cond,) if cond is not True else ()))
 
 
-def merge_states(parts):
-    """parts: [(cond, State)] with mutually exclusive conds (relative to the common prefix guard)."""
+def merge_states(parts, base_conj=None, exhaustive=False):
+    """parts: [(cond, State)] with mutually exclusive conds.  base_conj: the conjunct tuple of the state that was
+    forked; exhaustive: the conds cover every case (no branch was dropped)."""
     parts = [(c, s) for c, s in parts if s is not None]
     if not parts:
         return None
@@ -114,7 +138,6 @@ def merge_states(parts):
         return parts[0][1]
     res = parts[-1][1]
     store = dict(res.store)
-    guard = res.guard
     for c, s in reversed(parts[:-1]):
         keys = set(store) | set(s.store)
         for k in keys:
@@ -126,8 +149,20 @@ def merge_states(parts):
                 store[k] = ite(c, a, b)
             except Unsupported as e:
                 raise Unsupported('merging %r: %s' % (k, e))
-        guard = b_or(s.guard, guard)
-    return State(store, simp(guard) if not isinstance(guard, bool) else guard)
+    # path condition
+    if base_conj is not None:
+        n = len(base_conj)
+        ok = all(len(s.conj) >= n and all(x is y for x, y in zip(s.conj[:n], base_conj)) for _, s in parts)
+        if ok:
+            sufs = [s.conj[n:] for _, s in parts]
+            if exhaustive and all(len(sf) == 1 and sf[0] is c for sf, (c, _) in zip(sufs, parts)):
+                return State(store, conj=base_conj)
+            if exhaustive and all(len(sf) == 0 for sf in sufs):
+                return State(store, conj=base_conj)
+            disj = b_or(*[b_and(*sf) for sf in sufs])
+            return State(store, conj=base_conj + ((disj,) if disj is not True else ()))
+    guard = b_or(*[s.guard for _, s in parts])
+    return State(store, guard)
 
 
 class Frame:
@@ -813,6 +848,8 @@ class Executor:
             return self.binop(op, a.d, b.d, 'isize')
         if isinstance(a, Ptr) or isinstance(b, Ptr):
             raise Unsupported('pointer arithmetic %s' % op)
+        if is_zint(a) or is_zint(b):
+            return self.zint_binop(op, a, b, ta)
         w, signed = INT_TYPES.get(ta, (width(a), False))
         ovf = op.endswith('WithOverflow')
         if ovf:
@@ -882,6 +919,42 @@ class Executor:
             return lift(A >= B if signed else z3.UGE(A, B))
         raise Unsupported('binop %s' % op)
 
+    # ---- exact integer mode (DESIGN.md 3.1): values are z3 Ints, every wrap is an explicit `mod`
+    @staticmethod
+    def to_zint(x, ty):
+        if is_zint(x):
+            return x
+        w, signed = INT_TYPES[ty]
+        if isinstance(x, CI):
+            return z3.IntVal(x.signed() if signed else x.v)
+        return z3.BV2Int(x, signed)
+
+    @staticmethod
+    def zint_wrap(r, w, signed):
+        lo = -(1 << (w - 1)) if signed else 0
+        hi = lo + (1 << w) - 1
+        return z3.If(z3.And(r >= lo, r <= hi), r, ((r - lo) % (1 << w)) + lo)
+
+    def zint_binop(self, op, a, b, ta):
+        w, signed = INT_TYPES[norm_type(ta)]
+        A, B = self.to_zint(a, ta), self.to_zint(b, ta)
+        lo = -(1 << (w - 1)) if signed else 0
+        hi = lo + (1 << w) - 1
+        ovf = op.endswith('WithOverflow')
+        if ovf:
+            op = op[:-len('WithOverflow')]
+        if op in ('Add', 'Sub', 'Mul'):
+            r = A + B if op == 'Add' else (A - B if op == 'Sub' else A * B)
+            flag = z3.Or(r < lo, r > hi)
+            if ovf:
+                return (self.zint_wrap(r, w, signed), lift(z3.simplify(flag)))
+            return self.zint_wrap(r, w, signed)
+        cmp = {'Eq': lambda: A == B, 'Ne': lambda: A != B, 'Lt': lambda: A < B, 'Le': lambda: A <= B,
+               'Gt': lambda: A > B, 'Ge': lambda: A >= B}
+        if op in cmp:
+            return lift(z3.simplify(cmp[op]()))
+        raise Unsupported('integer-mode binop %s' % op)
+
     @staticmethod
     def conc_binop(op, a, b, w, signed, ovf):
         x, y = (a.signed(), b.signed()) if signed else (a.v, b.v)
@@ -947,6 +1020,9 @@ class Executor:
         if op == 'Neg':
             if isinstance(a, CI):
                 return CI(-a.v, a.w)
+            if is_zint(a):
+                w, signed = INT_TYPES[norm_type(ta)]
+                return self.zint_wrap(-a, w, signed)
             return -a
         if op == 'PtrMetadata':
             return self.slice_len(a, st)
@@ -984,6 +1060,13 @@ class Executor:
                 return z3.If(a, z3.BitVecVal(1, w), z3.BitVecVal(0, w))
             if isinstance(a, Enum):
                 return self.int_resize(a.d, w, True)
+            if is_zint(a):
+                ws, ss = INT_TYPES[tsrc]
+                wd, sd = INT_TYPES[tdst]
+                lo_s, lo_d = (-(1 << (ws - 1)) if ss else 0), (-(1 << (wd - 1)) if sd else 0)
+                if lo_d <= lo_s and lo_s + (1 << ws) <= lo_d + (1 << wd):
+                    return a
+                return self.zint_wrap(a, wd, sd)
             ssrc = INT_TYPES.get(tsrc, (0, False))[1]
             return lift(self.int_resize(a, w, ssrc)) if not isinstance(a, CI) else self.int_resize(a, w, ssrc)
         if kind.startswith('PointerCoercion(Unsize'):
@@ -1055,7 +1138,7 @@ class Executor:
                     return None
                 if good is not True:
                     self.oblige('panic', b_and(st.guard, b_not(good)), self.where(fr, bb), 'assert: ' + term[3])
-                    st.guard = b_and(st.guard, good)
+                    st.add_guard(good)
                 bb = term[4]
             elif k == 'drop':
                 if term[2] is None:
@@ -1109,16 +1192,26 @@ class Executor:
                         order.append(t)
                     else:
                         grouped[t] = b_or(grouped[t], c)
-                live = [(grouped[t], t) for t in order if t in reach and self.feasible(b_and(st.guard, grouped[t]))]
-                # targets that cannot reach the exit (panic arms) are run for their obligations only
+                live = [(grouped[t], t) for t in order if t in reach]
+                # targets that cannot reach the exit (panic arms) are run for their obligations only; when the
+                # pruning solver shows such an arm infeasible under the harness assumptions it is dropped (that IS the
+                # discharge of its obligation) and does not constrain the path condition of the surviving arms
+                pruned = set()
                 for t in order:
-                    if t not in reach and self.feasible(b_and(st.guard, grouped[t])):
-                        self.exec_from(fr, t, None, st.fork(grouped[t]))
+                    if t not in reach:
+                        if self.feasible(b_and(st.guard, grouped[t])):
+                            self.exec_from(fr, t, None, st.fork(grouped[t]))
+                        else:
+                            pruned.add(t)
+                            self.stats['pruned_panic_arms'] = self.stats.get('pruned_panic_arms', 0) + 1
                 if not live:
                     return None
                 if len(live) == 1:
                     c, t = live[0]
-                    st.guard = b_and(st.guard, c)
+                    if not all(t2 == t or t2 in pruned or item.blocks[t2][1][0] == 'unreachable' for t2 in order):
+                        st.add_guard(c)
+                    elif any(item.blocks[t2][1][0] == 'unreachable' for t2 in order if t2 != t):
+                        st.add_guard(c)
                     bb = t
                     continue
                 j = ipdom.get(bb)
@@ -1132,11 +1225,15 @@ class Executor:
                     return None
                 self.stats['forks'] += 1
                 parts = []
+                base_conj = st.conj
                 for c, t in live:
                     r = self.exec_from(fr, t, j, st.fork(c))
                     parts.append((c, r))
                 fr.visits[bb] = cnt - 1
-                st = merge_states(parts)
+                live_t = set(t for _, t in live)
+                exhaustive = all(r is not None for _, r in parts) and all(
+                    t in live_t or t in pruned or item.blocks[t][1][0] == 'unreachable' for t in order)
+                st = merge_states(parts, base_conj, exhaustive)
                 self.stats['merges'] += 1
                 if st is None:
                     return None
@@ -1354,7 +1451,7 @@ class CallCtx:
         self.ex.oblige('panic', b_and(self.st.guard, cond), self.where, msg)
         if cond is True:
             return False
-        self.st.guard = b_and(self.st.guard, b_not(cond))
+        self.st.add_guard(b_not(cond))
         return True
 
     def deref(self, p):
